@@ -50,12 +50,19 @@ def run_cut(case):
 
 
 def gen_stock(rng):
-    nt = rng.randint(1, 3)
+    nt = rng.randint(1, 3) if rng.random() < 0.6 else rng.randint(4, 5)
     W = rng.randint(3, 12)
     sizes = [rng.randint(1, W) for _ in range(nt)]
     if rng.random() < 0.3 and nt >= 2:
         sizes[1] = sizes[0]                    # duplicate piece sizes
-    demands = [rng.randint(0, 4) for _ in range(nt)]
+    if nt >= 4 and rng.random() < 0.5:         # complementary pairs: several ways to pair pieces into full rolls (degenerate pricing steps)
+        sizes = []
+        for _ in range(nt // 2):
+            a = rng.randint(1, W - 1)
+            sizes += [a, W - a]
+        sizes = (sizes + [rng.randint(1, W)])[:nt]
+        rng.shuffle(sizes)
+    demands = [rng.randint(0, 4 if nt <= 3 else 2) for _ in range(nt)]
     if sum(demands) == 0:
         demands[0] = 1
     return {"kind": "stock", "W": W, "sizes": sizes, "demands": demands, "floats": rng.random() < 0.3}
